@@ -50,7 +50,7 @@ Call(e0) ==
   LET e == e0 @@ [fault |-> flt] IN
   IF s.mode = "lost" THEN UNCHANGED <<fmt, chain, run, flt, s, obs, ref, pp>>
   ELSE LET j == Judge(fmt, chain, s, e) IN
-       /\ (j.viol # {} => Report("call", j.viol, [op |-> e.op, res |-> Core(e.res)]))
+       /\ (j.viol # {} => Report("call", j.viol, [op |-> e.op, res |-> Core(e.res), ctx |-> s.ctx, mode |-> s.mode]))
        /\ s' = IF j.viol # {} THEN [j.s EXCEPT !.mode = "lost"] ELSE j.s
        /\ obs' = IF pp = "" THEN obs ELSE obs \o ObsOf(e)
        /\ UNCHANGED <<fmt, chain, run, flt, ref, pp>>
